@@ -500,6 +500,9 @@ impl ASN1Type {
             })) => {
                 let mut impl_template = ty.clone();
                 let mut impl_tlds = tlds.clone();
+                // A template that (directly or through other templates) instantiates
+                // itself cannot be expanded: it is not in scope within its own expansion
+                impl_tlds.remove(identifier);
                 let mut table_constraint_replacements = BTreeMap::new();
                 for (
                     index,
@@ -913,6 +916,13 @@ impl ASN1Value {
                 ASN1Type::ElsewhereDeclaredType(e),
                 ASN1Value::LinkedNestedValue { supertypes, value },
             ) => {
+                if supertypes.contains(&e.identifier) {
+                    return Err(grammar_error!(
+                        LinkerError,
+                        "Failed to link value: type reference '{}' is cyclic",
+                        e.identifier
+                    ));
+                }
                 supertypes.push(e.identifier.clone());
                 if let ASN1Value::LinkedIntValue { integer_type, .. } = value.borrow_mut() {
                     let int_type = e.constraints.iter().fold(IntegerType::Unbounded, |acc, c| {
